@@ -8,6 +8,10 @@ type PropDef struct {
 	Num    uint64
 	Race   bool // also explored in the race build
 	Gen    func(r *PRNG, tier string) *Scenario
+	// Sweep (optional, thorough tier): S consecutive runs of a worker share one
+	// workload drawn from r and enumerate fault position k = 0..S-1 over it.
+	Sweep  func(r *PRNG, k, S int) *Scenario
+	SweepN int
 	Oracle func(run *Run)
 	Level  string
 	Rule   string // how distinct/non-trivial is counted (for evidence)
